@@ -321,6 +321,11 @@ func (s *raftLog) StoreLogs(logs []*raft.Log) error {
 
 // DeleteRange deletes logs within a given range inclusively.
 func (s *raftLog) DeleteRange(min, max uint64) error {
+	if min > max {
+		// empty range: raft's log compaction asks for (first, first-1) when there is
+		// nothing to compact, and an inverted range delete is an error in RocksDB
+		return nil
+	}
 	batch := rocksdb.NewWriteBatch()
 	batch.DeleteRangeCF(s.cfHandles[logTable], util.Uint64AsBytes(min), util.Uint64AsBytes(max+1))
 	return s.db.Write(s.wo, batch)
